@@ -8,5 +8,7 @@ PROP = dict(
          'non-trivial = injected mid-handshake or the item is a well-formed record; distinct by (role, version set, kind, k, item, suite class)',
     assumptions=['attacker has no session keys (keyed premature data needs the scripted peer, not built yet)'],
     targets=[dict(name='c01_appdata_gate', src=['props/C01/appdata_gate.cc', 'harness/wraps.c'], wraps=WRAPS, env={'VERIF_DIR': '/verif'},
-                  quick=dict(cases=4000, secs=90), thorough=dict(cases=150000, secs=1200))],
+                  quick=dict(cases=3200, secs=70), thorough=dict(cases=150000, secs=1000)),
+             dict(name='c01_early_data', src=['props/C01/early_data.cc', 'harness/wraps.c'], wraps=WRAPS, env={'VERIF_DIR': '/verif'},
+                  quick=dict(cases=1200, secs=40), thorough=dict(cases=40000, secs=400))],
 )
